@@ -27,6 +27,7 @@ META = dict(
 META["text"] += ' (R7, N) make_all_assertions gives every contest the assertions of the factory for its own social choice function, fed with its own winners, the other candidates as losers, its share_to_win / assertion JSON and its own test configuration (one term per iteration against the dispatch table); any other choice function raises.'
 META["text"] += " R6 also decides the tally's validity condition as a table (a card is tallied iff it lists the contest and rules are not enforced or it has at most n_winners marks, whatever the choice function); R5 accepts the mean as np.mean over the filtered cards or as the filtered sum over the filtered count (same filter in numerator and denominator)."
 META["text"] += ' R6 also: the tally starts from zero at every call (the counter is created unconditionally before the first card is counted).'
+META["text"] += ' R5 also: the CVR list reaches the mean as given (set_all_margins_from_cvrs -> set_margin_from_cvrs -> Assorter.mean hand on the list itself, not a filtered copy), and the value functions involved keep no state between calls.'
 
 
 def outer_tx(idx):
